@@ -411,3 +411,14 @@ M('c20-aggregate-arity', 'C20', [(SQ, "  con.create_aggregate('ArgMin', 3, ArgMi
 M('c20-sqlexpr-placeholder', 'C20', [('compiler/dialect_libraries/sqlite_library.py', 'SqlExpr("ArgMax({a}, {v}, {k})", {a:, v:, k:})', 'SqlExpr("ArgMax({a}, {v}, {lim})", {a:, v:, k:})')], 'C20-R2')
 M('c20-set-as-scalar', 'C20', [(SQ, "  con.create_aggregate('DistinctListAgg', 1, DistinctListAgg)", "  con.create_function('DistinctListAgg', 1, DistinctListAgg)")], 'C20-R1')
 T('c20-twin-case', 'C20', [(DI, "        'Sort': 'SortList({0})',\n        'MagicalEntangle': 'MagicalEntangle({0}, {1})',\n        'Format': 'Printf(%s)',\n        'Least': 'MIN(%s)',", "        'Sort': 'SORTLIST({0})',\n        'MagicalEntangle': 'MagicalEntangle({0}, {1})',\n        'Format': 'Printf(%s)',\n        'Least': 'MIN(%s)',")])
+
+# ---------------------------------------------------------------- C11
+M('c11-databricks-no-eq', 'C11', [('compiler/dialect_libraries/databricks_library.py', "`=`(left:, right:) = right :- left == right;\n", "")], 'C11-R3')
+M('c11-eq-definition-differs', 'C11', [('compiler/dialect_libraries/trino_library.py', "`=`(left:, right:) = right :- left == right;", "`=`(left:, right:) = left :- left == right;")], 'C11-R3')
+M('c11-ultra-concise-own-tree', 'C11', [(PA, "    return BuildTreeForCombine(parsed_expression, aggregating_function, parsed_body, s)", "    return {'head': {'predicate_name': 'Combine', 'record': {'field_value': [{'field': 'logica_value', 'value': {'aggregation': {'operator': aggregating_function, 'argument': parsed_expression}}}]}}, 'full_text': s}")], 'C11-R1')
+M('c11-negation-not-distinct', 'C11', [(PA, "                              'body': negated_proposition,\n                              'distinct_denoted': True,\n", "                              'body': negated_proposition,\n")], 'C11-R1')
+M('c11-head-agg-not-distinct', 'C11', [(PA, "    if is_distinct:\n      result['distinct_denoted'] = True", "    if is_distinct and False:\n      result['distinct_denoted'] = True")], None)
+M('c11-shorthand-field', 'C11', [(PA, "        if not value:\n          value = field\n", "        if not value:\n          value = '_' + field\n")], 'C11-R2')
+M('c11-implication-flat', 'C11', [(PA, "  conjuncts += [NegationTree(consequence_str, EnsureConjunction(consequence))]", "  conjuncts += [EnsureConjunction(consequence)]")], 'C11-R2')
+M('c11-head-value-shape', 'C11', [(PA, "        'field': 'logica_value',\n        'value': {'expression': ParseExpression(expression_str)}\n    })", "        'field': 'logica_value',\n        'value': {'expr': ParseExpression(expression_str)}\n    })")], 'C11-R1')
+T('c11-twin-library-layout', 'C11', [('compiler/dialect_libraries/trino_library.py', "`=`(left:, right:) = right :- left == right;", "`=`(left:, right:) = right :-\n    left == right;  # assignment operator")])
